@@ -246,7 +246,8 @@ IsLeftBranch(ri, n) == RecOf(ri, n).kind \in {"left", "leftright"}
 IsPratt(ri) == \E i \in DOMAIN G.rules[ri].rec : G.rules[ri].rec[i].kind \in {"left", "leftright"}
 RequiresBp(ri) ==
   LET R == G.rules[ri].rec IN
-  Len(R) > 1 /\ \E i \in DOMAIN R : R[i].kind \in {"right", "leftright"}
+  \/ \E i \in DOMAIN R : R[i].kind = "leftright"
+  \/ (Len(R) > 1 /\ \E i \in DOMAIN R : R[i].kind = "right")
 
 \* operands of a left-recursive branch that the loop arm executes: not predicates, not the left operand
 ArmOps(ri, n) ==
